@@ -168,20 +168,12 @@ def pavOrder (votes : Profile) (a : List Cand) : List Slot :=
 def reweighted (votes : Profile) (elected : List Cand) (c : Cand) : Rat :=
   (votes.map (fun bw => if bw.1.contains c then bw.2 / (((interLen bw.1 elected + 1 : Nat)) : Rat) else 0)).sum
 
-/-- first occurrences, in order -/
-def firstOcc : List Cand → List Cand
-  | [] => []
-  | x :: xs => x :: (firstOcc xs).filter (· != x)
-
-/-- candidates in order of first mention -/
-def mentioned (votes : Profile) : List Cand := firstOcc (votes.flatMap (·.1))
-
 /-- SPAV by definition: each round the candidate with the strictly greatest reweighted approval among those not yet
     elected; refusal when the greatest value is shared; stops early when nobody is left -/
 def spavSpecGo (votes : Profile) : Nat → List Cand → Except Err (List Cand)
   | 0, elected => .ok elected
   | k + 1, elected =>
-    let rest := (mentioned votes).filter (fun c => !(elected.contains c))
+    let rest := (allCands votes).filter (fun c => !(elected.contains c))
     match rest with
     | [] => .ok elected
     | _ =>
